@@ -1907,12 +1907,16 @@ func (h *fsmHandler) recvMessageloop(ctx context.Context, conn net.Conn, holdtim
 					handling := fmsg.handling
 					useRevisedError := h.fsm.isTreatAsWithdraw
 
+					// RFC 7606 Section 3.h: the strongest action of all the errors
+					// of the message applies. An error found by the decoder must
+					// not keep the message from being validated (missing or
+					// duplicate attributes, attribute values): keep whichever of
+					// the two reactions is the stronger one.
 					var validationErr error
-					if handling == bgp.ERROR_HANDLING_NONE {
-						ok, ve := bgp.ValidateUpdateMsg(body, rfMap, h.fsm.isEBGP, h.fsm.isConfed, h.allowLoopback)
-						if !ok {
+					if ok, ve := bgp.ValidateUpdateMsg(body, rfMap, h.fsm.isEBGP, h.fsm.isConfed, h.allowLoopback); !ok {
+						if vh := h.handlingError(m, ve, useRevisedError); vh > handling {
 							validationErr = ve
-							handling = h.handlingError(m, ve, useRevisedError)
+							handling = vh
 							fmsg.handling = handling
 						}
 					}
